@@ -11,6 +11,8 @@ SHAPES = [
     dict(name='ecu-addr+unfiltered', subs=[dict(cid=1, filt=0x40), dict(cid=2, filt=None)], cas=[]),
     dict(name='ca-normal+ca-without-address', subs=[], cas=[dict(name=11, addr=0x41, bypass=True, subs=[3]), dict(name=12, addr=0x42, bypass=False, subs=[4])]),
     dict(name='ca+ecu-addr+unfiltered', subs=[dict(cid=5, filt=0x43), dict(cid=6, filt=None)], cas=[dict(name=13, addr=0x44, bypass=True, subs=[7])]),
+    # a listener bound to address 0 is bound to ONE address like any other (0 is a legal J1939 address)
+    dict(name='ecu-addr-zero+ecu-addr', subs=[dict(cid=8, filt=0), dict(cid=9, filt=0x46)], cas=[dict(name=14, addr=0x47, bypass=True, subs=[10])]),
 ]
 
 
@@ -77,8 +79,52 @@ def flag_cases(dlls):
                                horizon=100000, meta=dict(shape=0, kind='flags', ext=ext, remote=remote, error=error, dll=dll, dest=255, broadcast=True))
 
 
+def leaver_cases(rng, n):
+    """an RTS/CTS (J1939-21) receive session towards an address whose only owner — a bound listener — goes away in the
+    middle of the transfer: the remaining data packets are then addressed to an address nobody here owns"""
+    for k in range(n):
+        d = rng.choice([0x40, 0x00, 0x7E, rng.randrange(0xFE)])
+        sa = rng.choice([0x90, 0x01, rng.randrange(0xFE)])
+        if sa == d:
+            sa = (d + 1) % 0xFE
+        npk = rng.randint(2, 6)
+        size = 7 * npk - rng.randint(0, 6)
+        window = rng.choice([1, 2, 255])
+        leave_after = rng.randint(0, npk - 1)          # data packets handled before the owner leaves
+        unf = rng.random() < 0.5                        # an unfiltered listener is present as well
+        subs = [dict(cid=1, filt=d)] + ([dict(cid=2, filt=None)] if unf else [])
+        inject = [dict(t=1000, to=0, id=R.ref_tp_cm_id(7, d, sa), data=R.ref_rts(size, npk, 255, 0xD100), via='listener')]
+        t = 20000
+        for q in range(1, npk + 1):
+            inject.append(dict(t=t, to=0, id=R.ref_tp_dt_id(d, sa), data=[q] + [(q * 16 + i) & 0xFF for i in range(7)], via='listener'))
+            t += 20000
+        t_leave = 20000 * (leave_after + 1) - 5000
+        script = [dict(t=t_leave, s=0, op='unsubscribe', cid=1)]
+        yield dict(stacks=[dict(dll='j1939-21', max_cmdt=window, subs=subs, cas=[])], lat=[1], jit=[1], script=script, inject=inject,
+                   horizon=t + 100000, meta=dict(kind='owner-leaves', dest=d, sa=sa, t_leave=t_leave, packets=npk, leave_after=leave_after, unfiltered=unf, shape=0, dll='j1939-21', broadcast=False))
+
+
+def oracle_leaver(sc, res):
+    m = sc['meta']
+    v = []
+    for e in res.trace:
+        if e[0] > m['t_leave']:
+            if e[2] == 'tx':
+                v.append(dict(kind='frame-sent-for-an-address-no-longer-owned', meta=m, t=e[0], id=hex(e[3]), data=list(e[6])))
+                break
+            if e[2] == 'cb':
+                v.append(dict(kind='delivery-after-the-owner-left', meta=m, t=e[0], cid=e[3]))
+                break
+    for js in res.job:
+        if js != 'alive':
+            v.append(dict(kind='job-thread-' + js, meta=m))
+    return v
+
+
 def oracle(sc, res):
     m = sc.get('meta')
+    if m is not None and m.get('kind') == 'owner-leaves':
+        return oracle_leaver(sc, res)
     if m is None:
         return oracle_tp.check_exactly_once(sc, res) + bystander(sc, res)
     v = []
@@ -151,10 +197,10 @@ def run(out, tier, rng, work):
                 'handler logs replayed on the Coq model; non-trivial = the frame was dispatched (accepted) or a filter decision was exercised')
     out.assumptions = ['A1-A6 of DESIGN.md section 3']
     C.std_proof_stage(out, 'C05', FILES)
-    dests = sorted(set([0, 1, 0x3F, 0x40, 0x41, 0x42, 0x43, 0x44, 0x45, 0x7F, 0x80, 0xEA, 0xFD, 0xFE, 0xFF] + [rng.randrange(256) for _ in range(25)])) if tier == 'quick' else list(range(256))
+    dests = sorted(set([0, 1, 0x3F, 0x40, 0x41, 0x42, 0x43, 0x44, 0x45, 0x46, 0x47, 0x48, 0x7F, 0x80, 0xEA, 0xFD, 0xFE, 0xFF] + [rng.randrange(256) for _ in range(25)])) if tier == 'quick' else list(range(256))
     runs = []
     worst = {}
-    for sc in list(one_frame_cases(['j1939-21', 'j1939-22'], dests)) + list(flag_cases(['j1939-21', 'j1939-22'])):
+    for sc in list(one_frame_cases(['j1939-21', 'j1939-22'], dests)) + list(flag_cases(['j1939-21', 'j1939-22'])) + list(leaver_cases(rng, 60 if tier == 'quick' else 1500)):
         res = scen.run(sc)
         runs.append((sc, res))
         out.add_case(scen.sc_hash(sc), True, sample=sc['meta'] if len(out.samples) < 3 else None)
